@@ -116,7 +116,7 @@ theorem total (k : ViewKind) (b : Bytes) : requiredSize k b ≠ .error .panic :=
   | scmp => exact Scmp.no_panic b
   | scmpMsg i => exact ScmpMsg.no_panic _ b
 
-/-- the same statement under the name used in DESIGN.md -/
+/-- alias of `total` (the name used in DESIGN.md); not a separate result -/
 theorem fields_before_check (k : ViewKind) (b : Bytes) : requiredSize k b ≠ .error .panic := total k b
 
 /-! ## 3. a view re-parses to itself -/
@@ -270,13 +270,16 @@ theorem mutator_preserves_size (k : ViewKind) (b : Bytes) (n : Nat) (h : require
   rwa [hlen] at this
 
 open ScionVerif.Access in
-/-- **safe_setters_preserve_size**: every *safe* setter of the crate (`safeSetterRanges`: `set_traffic_class`,
-`set_flow_id`, `set_next_header`, `set_{src,dst}_{isd,as}`, `set_curr_{info,hop}_field`, every setter of every
-info / hop field, one-hop fields, UDP ports / checksum, SCMP code / checksum, and every byte written through
-a mutable slice handed out by a safe accessor – `payload_mut`, `data_mut`, `offending_packet_mut`, unsupported
-path bytes) is such a write; hence it keeps the size.  The setters of the protected fields are exactly the
-crate's `unsafe fn`s (`gen_unsafe_field_write!`) plus `set_version` and `UdpDatagramView::set_length`, which
-are treated separately (`set_version_*`, harness probe). -/
+/-- **safe_setters_preserve_size**: every *safe* setter of the crate keeps the size.  `safeSetterRanges k v` is
+computed from `Generated/Setters.lean`, the table of **all** setters the translator finds in the view sources
+(`gen_field_write!` / `gen_field_read_and_write!` / `pub fn set_*` = safe, `gen_unsafe_field_write!` /
+`pub unsafe fn set_*` = unsafe): the safe setters of the view type itself and of every sub-view a safe `…_mut()`
+accessor hands out over the same bytes (`path_mut`, `header_mut`, `message_mut`, info / hop fields), plus every
+byte written through a mutable slice handed out by a safe accessor (`payload_mut`, `data_mut`,
+`offending_packet_mut`, `message_specific_data_mut`, unsupported path bytes).  Two safe setters are *excluded*
+(`Access.exemptSetters`: `ScionHeaderView::set_version`, `UdpDatagramView::set_length` – they do write a field
+that `has_required_size` reads; harness probes only).  A setter that turns safe in the source enters
+`safeSetterRanges` on the next run and this proof is re-checked against it. -/
 theorem safe_setters_preserve_size (k : ViewKind) (b : Bytes) (n : Nat) (h : requiredSize k b = .ok n)
     (r : BitRange) (hr : r ∈ safeSetterRanges k (b.take n)) (r' : BitRange) (hsub : BitRange.sub r' r) (x : Nat) :
     requiredSize k (writeBits (b.take n) r' x) = .ok n := by
@@ -284,6 +287,40 @@ theorem safe_setters_preserve_size (k : ViewKind) (b : Bytes) (n : Nat) (h : req
   have hlen : (b.take n).length = n := by simp; omega
   have hv : requiredSize k (b.take n) = .ok (b.take n).length := by rw [hlen]; exact reparse_idem k b n h
   exact mutator_preserves_size k b n h r' x (safe_setters_neutral k (b.take n) hv r hr r' hsub)
+
+/-- the hypotheses are satisfiable: `set_code` through the typed view of an accepted 8-byte unknown SCMP message -/
+example : (requiredSize .scmp [200, 0, 0, 0, 0, 0, 0, 0]).toOption = some 8 ∧
+    (⟨8, 16⟩ : BitRange) ∈ Access.safeSetterRanges .scmp ([200, 0, 0, 0, 0, 0, 0, 0].take 8) := by decide
+
+/-! ### the extracted setter table: classification and completeness -/
+
+/-- size-determining bit ranges per Rust view type, relative to the start of that view (the typed SCMP message
+views are handed out over the bytes of a `ScmpPayloadView`, whose size depends on the type byte) -/
+def staticProtected (view : String) : List BitRange :=
+  if view == "ScionHeaderView" then
+    [CommonHeader.VERSION_RNG, CommonHeader.HEADER_LEN_RNG, CommonHeader.PAYLOAD_LEN_RNG, CommonHeader.PATH_TYPE_RNG,
+     CommonHeader.DST_ADDR_INFO_RNG, CommonHeader.SRC_ADDR_INFO_RNG]
+  else if view == "StandardPathView" then [StdPathMeta.SEG0_LEN_RNG, StdPathMeta.SEG1_LEN_RNG, StdPathMeta.SEG2_LEN_RNG]
+  else if view == "UdpDatagramView" then [UdpDatagram.LENGTH_RNG]
+  else if ("ScmpPayloadView" :: scmpKinds.map Access.msgViewName).contains view then [ScmpMessage.TYPE_RNG]
+  else []
+
+open ScionVerif.Generated.Setters in
+/-- **generated_setter_classification**: in the current source a setter writes a size-determining field **iff**
+it is an `unsafe fn` or one of the two documented exemptions; every other setter shares no bit with any
+size-determining field of its view.  Decided on the table extracted from the source on this run.
+(Before the fix of `ScmpUnknownMessageView::set_message_type` – a safe fn writing the type byte – this was
+false.) -/
+theorem generated_setter_classification : ∀ s ∈ setters,
+    ((s.safe = false ∨ (s.view, s.name) ∈ Access.exemptSetters) ↔ s.range ∈ staticProtected s.view) ∧
+    (s.range ∉ staticProtected s.view → ∀ p ∈ staticProtected s.view, s.range.disjoint p) := by decide
+
+open ScionVerif.Generated.Setters in
+/-- **generated_mut_fns_modelled**: the view sources contain no *safe* `pub fn f(&mut self ..)` other than the
+field setters above and the functions listed (with their treatment) in `Access.modelledMutFns`; a new safe
+mutable accessor makes this fail until it is modelled. -/
+theorem generated_mut_fns_modelled : ∀ f ∈ mutFns, f.safe = true → (f.view, f.name) ∈ Access.modelledMutFns := by
+  decide
 
 open ScionVerif.Access in
 /-- **mutator_sequence_in_bounds**: after *any* finite sequence of size-neutral writes (each judged on the
